@@ -78,6 +78,24 @@ def run(tier, seed):
         ad = authsim.authdata("example.com", 0x05, 9)
         a = authsim.Assertion(edz, s.cred_id, cdj, ad, edz.sign(ad + hashlib.sha256(cdj).digest()))
         A.run_case(impl.AuthPolicy(b"c" * 16, "example.com", "https://example.com", edz.cose_bytes, 0, False), a, "record", "accept", "authenticate-after/ed25519-leading-zero-key")
+    # RSA credential with a public exponent other than 65537: register (no signature by the credential key involved), then authenticate
+    for e in (65539, 3):
+        rc = authsim.rsa_cred_exponent(e)
+        s = regsim.RScn("none", "RS256")
+        s.k["cose_bytes"] = rc.cose_bytes
+        pd, reg = regsim.build(s)
+        reg.cred = rc
+        pol = regrun.policy_of(pd)
+        il, ml = B.run_case(pol, reg, "dict", "accept", f"register/none/rsa-exponent-{e}", scn=s)
+        with impl.substituted(pol.substitute, pol.now):
+            vr = webauthn.verify_registration_response(credential=reg.as_dict(), **pol.kwargs())
+        if vr.credential_public_key != rc.cose_bytes:
+            chk.violation("registration did not return the registered key bytes", f"returned-key none rsa-exponent-{e}", {"returned_key": vr.credential_public_key.hex()})
+        cdj = authsim.client_data("webauthn.get", b"e" * 16, "https://example.com")
+        ad = authsim.authdata("example.com", 0x05, vr.sign_count + 1)
+        a = authsim.Assertion(rc, vr.credential_id, cdj, ad, rc.sign(ad + hashlib.sha256(cdj).digest()))
+        A.run_case(impl.AuthPolicy(b"e" * 16, "example.com", "https://example.com", vr.credential_public_key, vr.sign_count, False), a, "record", "accept", f"authenticate-after/rsa-exponent-{e}")
+        registered.append((f"none/RS256-e{e}", rc, vr.credential_id + bytes([e % 251]), vr.credential_public_key, vr.sign_count))
     for kind in ("ES256-P256", "ES256-P384", "ES512-P521"):
         c = authsim.Cred(kind)
         cdj = authsim.client_data("webauthn.get", b"d" * 16, "https://example.com")
